@@ -986,6 +986,29 @@ fn generate_threads(seed: u64, index: u64, scale: u64) -> Program {
         } else {
             vec![]
         };
+        let (ops, faults) = if r.chance(1, 6) {
+            // this thread first has a collection unwound by a panicking trace while several objects are buffered (a counted
+            // one behind an uncounted one), then lets the referrer become garbage; its thread-locals keep the survivors
+            use OpCode as O;
+            let store = STORE_KINDS.iter().position(|s| s.0 == "vec1").unwrap() as u16;
+            let mut pre: Vec<Op> = (0..4).map(|_| Op::new(O::New, &[]).with_tmpl(NodeTmpl { store, fin: vec![], drop: vec![] })).collect();
+            pre.push(Op::new(O::SetSlot, &[1, 0, 0]));
+            let order: [i64; 4] = if r.chance(1, 2) { [0, 3, 2, 1] } else { [3, 0, 2, 1] };
+            for (n, h) in order.iter().enumerate() {
+                pre.push(Op::new(O::Clone, &[*h]));
+                pre.push(Op::new(O::Drop, &[4 + n as i64]));
+            }
+            pre.push(Op::new(O::Collect, &[]));
+            pre.push(Op::new(O::SetSlot, &[0, 0, 1]));
+            pre.push(Op::new(O::Drop, &[1]));
+            if r.chance(1, 2) {
+                pre.push(Op::new(O::Collect, &[]));
+            }
+            pre.extend(ops.into_iter().take(6));
+            (pre, vec![Fault { kind: FaultKind::Trace, k: 1 }])
+        } else {
+            (ops, faults)
+        };
         prog.threads.push(ThreadPlan { tls_first: r.chance(1, 2), tls_keep: r.below(4) as u32, ops, knobs: sub.knobs, faults });
     }
     let total: usize = prog.threads.iter().map(|t| t.ops.len() + 3).sum();
